@@ -21,25 +21,25 @@ Proof.
   - generalize s. induction el as [|q r IH]; intro s0; [reflexivity|]. cbn [exec_list]. destruct (exec q en s0) as [s' [|x]]; [apply IH|reflexivity].
 Qed.
 
-Fixpoint iter_list (body : list stmt) (args : list lbl) (flags : list bool) (a : attrs) (xs : list lbl) (s : hg) : hg * outcome :=
+Fixpoint iter_list (body : list stmt) (args : list lbl) (flags : list bool) (a : attrs) (l1 : lbl) (locs : list (list lbl)) (xs : list lbl) (s : hg) : hg * outcome :=
   match xs with
   | [] => (s, Ok)
-  | x :: r => match exec_list body (mkEnv args flags x a) s with (s', Ok) => iter_list body args flags a r s' | y => y end
+  | x :: r => match exec_list body (mkEnv args flags x a l1 locs) s with (s', Ok) => iter_list body args flags a l1 locs r s' | y => y end
   end.
 
 Lemma exec_for t k body en s :
   exec (SForCopy t k body) en s =
   match get (veval k en) (tab t s) with
   | None => (s, Raised IDNotFound)
-  | Some m => iter_list body (e_args en) (e_flags en) (e_attr en) m s
+  | Some m => iter_list body (e_args en) (e_flags en) (e_attr en) (e_loop en) (e_locals en) m s
   end.
 Proof.
   cbn [exec]. destruct (get (veval k en) (tab t s)) as [m|]; [|reflexivity].
   generalize s. induction m as [|x r IH]; intro s0; [reflexivity|]. cbn [iter_list].
   assert (E : forall l s1, (fix go (l : list stmt) (s : hg) : hg * outcome :=
                match l with [] => (s, Ok)
-               | q :: r' => match exec q (mkEnv (e_args en) (e_flags en) x (e_attr en)) s with (s', Ok) => go r' s' | y => y end end) l s1
-             = exec_list l (mkEnv (e_args en) (e_flags en) x (e_attr en)) s1).
+               | q :: r' => match exec q (mkEnv (e_args en) (e_flags en) x (e_attr en) (e_loop en) (e_locals en)) s with (s', Ok) => go r' s' | y => y end end) l s1
+             = exec_list l (mkEnv (e_args en) (e_flags en) x (e_attr en) (e_loop en) (e_locals en)) s1).
   { induction l as [|q r' IHl]; intro s1; [reflexivity|]. cbn [exec_list]. destruct (exec q _ s1) as [s' [|y]]; [apply IHl|reflexivity]. }
   rewrite E. destruct (exec_list body _ s0) as [s' [|y]]; [apply IH|reflexivity].
 Qed.
@@ -78,7 +78,7 @@ Lemma exec_list_nil en s : exec_list [] en s = (s, Ok).
 Proof. reflexivity. Qed.
 
 Ltac hgs := cbn [h_node h_nattr h_edge h_eattr h_net h_uid with_node with_nattr with_edge with_eattr with_uid
-                 tab set_tab atab set_atab veval e_args e_flags e_loop e_attr nth].
+                 tab set_tab atab set_atab veval e_args e_flags e_loop e_attr e_loop1 e_locals nth].
 Ltac step := rewrite ?exec_list_cons, ?exec_list_nil, ?exec_if, ?exec_newset, ?exec_newattr, ?exec_add, ?exec_remove, ?exec_del,
                      ?exec_delattr, ?exec_uid, ?exec_raise; cbn [beval]; hgs; cbn [negb andb];
              repeat match goal with H : is_none _ = false |- _ => rewrite H end.
@@ -93,7 +93,7 @@ Definition antE_tail : list stmt :=
    SAdd TEdge (VArg 0) (VArg 1); SAdd TNode (VArg 1) (VArg 0)].
 
 Lemma antE_tail_ok e n s1 m : get e (h_edge s1) = Some m ->
-  (let (s', o) := exec_list antE_tail (mkEnv [e; n] [] LNone []) s1 in (s', o, O)) =
+  (let (s', o) := exec_list antE_tail (mkEnv [e; n] [] LNone [] LNone []) s1 in (s', o, O)) =
   (if negb (has n (h_node s1)) && is_none n then raise s1 XGIError
    else ok (node_add n e (edge_add e n (ensure_node n s1)))).
 Proof.
@@ -131,7 +131,7 @@ Qed.
 
 Lemma iter_remove_ok e : forall xs s, NoDup xs ->
   (forall x, In x xs -> exists l, get x (h_node s) = Some l /\ mem e l = true) ->
-  iter_list [SRemove TNode VLoop (VArg 0)] [e] [] [] xs s = (fold_left (fun s n => node_rem n e s) xs s, Ok).
+  iter_list [SRemove TNode VLoop (VArg 0)] [e] [] [] LNone [] xs s = (fold_left (fun s n => node_rem n e s) xs s, Ok).
 Proof.
   induction xs as [|x xs IH]; intros s ND H; [reflexivity|]. cbn [iter_list fold_left].
   inversion ND as [|? ? Hx ND']; subst. destruct (H x (or_introl eq_refl)) as (l & Gl & Ml).
@@ -217,4 +217,169 @@ Proof.
   - repeat step. destruct (is_none n) eqn:Nn; [reflexivity|]. repeat step. rewrite exec_attrupdate. hgs.
     rewrite get_set_same. repeat step.
     unfold ok, nattr_update, ensure_node, geta. rewrite Hn. hgs. rewrite get_set_same. reflexivity.
+Qed.
+
+(* ---------- remove_node(n, strong, remove_empty): on every state satisfying the class invariant ---------- *)
+Lemma exec_bind t k body en s :
+  exec (SBindIn t k body) en s =
+  match get (veval k en) (tab t s) with
+  | None => (s, Raised IDNotFound)
+  | Some m => exec_list body (mkEnv (e_args en) (e_flags en) (e_loop en) (e_attr en) (e_loop1 en) (m :: e_locals en)) s
+  end.
+Proof.
+  cbn [exec]. destruct (get (veval k en) (tab t s)) as [m|]; [|reflexivity].
+  generalize s. induction body as [|q r IH]; intro s0; [reflexivity|]. cbn [exec_list].
+  destruct (exec q _ s0) as [s' [|y]]; [apply IH|reflexivity].
+Qed.
+
+Lemma exec_forlocal i minus body en s :
+  exec (SForLocal i minus body) en s =
+  iter_list body (e_args en) (e_flags en) (e_attr en) (e_loop en) (e_locals en)
+            (match minus with Some v => sremove (veval v en) (nth i (e_locals en) []) | None => nth i (e_locals en) [] end) s.
+Proof.
+  cbn [exec]. generalize (match minus with Some v => sremove (veval v en) (nth i (e_locals en) []) | None => nth i (e_locals en) [] end).
+  intro xs. generalize s. induction xs as [|x r IH]; intro s0; [reflexivity|]. cbn [iter_list].
+  assert (E : forall l s1, (fix go (l : list stmt) (s : hg) : hg * outcome :=
+               match l with [] => (s, Ok)
+               | q :: r' => match exec q (mkEnv (e_args en) (e_flags en) x (e_attr en) (e_loop en) (e_locals en)) s with (s', Ok) => go r' s' | y => y end end) l s1
+             = exec_list l (mkEnv (e_args en) (e_flags en) x (e_attr en) (e_loop en) (e_locals en)) s1).
+  { induction l as [|q r' IHl]; intro s1; [reflexivity|]. cbn [exec_list]. destruct (exec q _ s1) as [s' [|y]]; [apply IHl|reflexivity]. }
+  rewrite E. destruct (exec_list body _ s0) as [s' [|y]]; [apply IH|reflexivity].
+Qed.
+
+(* the inner loop of the strong branch: remove e from the membership sets of the listed nodes *)
+Lemma iter_remove_e_ok n flags locs e : forall xs s, NoDup xs ->
+  (forall x, In x xs -> exists l, get x (h_node s) = Some l /\ mem e l = true) ->
+  iter_list [SRemove TNode VLoop VLoop1] [n] flags [] e locs xs s = (fold_left (fun s m => node_rem m e s) xs s, Ok).
+Proof.
+  induction xs as [|x xs IH]; intros s ND H; [reflexivity|]. cbn [iter_list fold_left].
+  inversion ND as [|? ? Hx ND']; subst. destruct (H x (or_introl eq_refl)) as (l & Gl & Ml).
+  rewrite exec_list_cons, exec_remove. hgs. rewrite Gl, Ml. rewrite exec_list_nil.
+  assert (E : with_node s (set x (sremove e l) (h_node s)) = node_rem x e s).
+  { unfold node_rem, has, getl. rewrite Gl. reflexivity. }
+  rewrite E. apply IH; [exact ND'|].
+  intros y Hy. destruct (H y (or_intror Hy)) as (ly & Gy & My). exists ly. split; [|exact My].
+  rewrite <- E. hgs. rewrite get_set_other; [exact Gy|]. intro; subst. contradiction.
+Qed.
+
+(* what the strong loop needs of the edges still to be processed *)
+Definition StrongQ (n : lbl) (s0 s : hg) (es : list lbl) : Prop :=
+  forall e, In e es -> exists m, get e (h_edge s) = Some m /\ get e (h_edge s0) = Some m /\ NoDup m /\
+                                 has e (h_eattr s) = true /\
+                                 forall x, In x m -> x <> n -> exists l, get x (h_node s) = Some l /\ mem e l = true.
+
+Lemma strong_loop_ok n flags locs s0 : forall es s, NoDup es -> StrongQ n s0 s es ->
+  iter_list [SBindIn TEdge VLoop [SDel TEdge VLoop; SDelAttr TEdge VLoop; SForLocal 0 (Some (VArg 0)) [SRemove TNode VLoop VLoop1]]]
+            [n] flags [] LNone locs es s =
+  (fold_left (fun s e => let nbrs := getl e (h_edge s) in let s' := drop_edge e s in
+                         fold_left (fun s m => node_rem m e s) (sremove n nbrs) s') es s, Ok).
+Proof.
+  induction es as [|e es IH]; intros s ND Q; [reflexivity|]. cbn [iter_list fold_left].
+  inversion ND as [|? ? He ND']; subst.
+  destruct (Q e (or_introl eq_refl)) as (m & Gm & _ & NDm & Ha & Hn).
+  rewrite exec_list_cons, exec_bind. hgs. rewrite Gm. rewrite exec_list_cons, exec_del. hgs.
+  assert (Hh : has e (h_edge s) = true) by (unfold has; rewrite Gm; reflexivity). rewrite Hh.
+  rewrite exec_list_cons, exec_delattr. hgs. rewrite Ha.
+  rewrite exec_list_cons, exec_forlocal. hgs.
+  set (s' := with_eattr (with_edge s (del e (h_edge s))) (del e (h_eattr s))).
+  assert (Ed : s' = drop_edge e s) by reflexivity.
+  rewrite (iter_remove_e_ok n flags (m :: locs) e (sremove n m) s').
+  2:{ apply NoDup_sremove. exact NDm. }
+  2:{ intros x Hx. apply In_sremove in Hx. destruct Hx as [Nx Hx]. destruct (Hn x Hx Nx) as (l & Gl & Ml). exists l. split; [exact Gl|exact Ml]. }
+  rewrite !exec_list_nil.
+  assert (Egl : getl e (h_edge s) = m) by (unfold getl; rewrite Gm; reflexivity). rewrite Egl. rewrite <- Ed.
+  set (s2 := fold_left (fun s m0 => node_rem m0 e s) (sremove n m) s').
+  apply IH; [exact ND'|].
+  (* the invariant for the remaining edges *)
+  intros e' He'. assert (Ne : e' <> e) by (intro; subst; contradiction).
+  destruct (Q e' (or_intror He')) as (m' & Gm' & G0' & NDm' & Ha' & Hn').
+  destruct (fold_node_rem_tables e (sremove n m) s') as [T1 T2]. fold s2 in T1, T2.
+  exists m'. split; [rewrite T1; unfold s'; hgs; rewrite get_del_other by exact Ne; exact Gm'|].
+  split; [exact G0'|]. split; [exact NDm'|].
+  split; [rewrite T2; unfold s', has; hgs; rewrite get_del_other by exact Ne; exact Ha'|].
+  intros x Hx Nx. destruct (Hn' x Hx Nx) as (l & Gl & Ml).
+  (* node x after removing e from the listed nodes: its set is l or l minus e, and e' stays *)
+  assert (G : forall ys t, (exists l0, get x (h_node t) = Some l0 /\ mem e' l0 = true) ->
+              exists l0, get x (h_node (fold_left (fun s m0 => node_rem m0 e s) ys t)) = Some l0 /\ mem e' l0 = true).
+  { induction ys as [|y ys IHy]; intros t Ht; [exact Ht|]. cbn [fold_left]. apply IHy.
+    destruct Ht as (l0 & G0 & M0). unfold node_rem. destruct (has y (h_node t)) eqn:Hy; [|exists l0; auto]. hgs.
+    destruct (lbl_eqb_spec x y) as [->|Nxy].
+    - rewrite get_set_same. exists (sremove e (getl y (h_node t))). split; [reflexivity|].
+      unfold getl. rewrite G0. apply mem_In. apply In_sremove. split; [exact Ne|apply mem_In; exact M0].
+    - rewrite get_set_other by exact Nxy. exists l0. auto. }
+  apply G. exists l. split; [unfold s'; hgs; exact Gl|exact Ml].
+Qed.
+
+Definition WeakQ (n : lbl) (s : hg) (es : list lbl) : Prop :=
+  forall e, In e es -> exists m, get e (h_edge s) = Some m /\ mem n m = true /\ has e (h_eattr s) = true.
+
+Lemma weak_loop_ok n strong re locs : forall es s, NoDup es -> WeakQ n s es ->
+  iter_list [SRemove TEdge VLoop (VArg 0); SIf (BAnd (BEmptySet VLoop TEdge) (BFlag 1)) [SDel TEdge VLoop; SDelAttr TEdge VLoop] []]
+            [n] [strong; re] [] LNone locs es s =
+  (fold_left (fun s e => let s' := edge_rem e n s in
+                         if (match getl e (h_edge s') with [] => true | _ => false end) && re && has e (h_edge s')
+                         then drop_edge e s' else s') es s, Ok).
+Proof.
+  induction es as [|e es IH]; intros s ND Q; [reflexivity|]. cbn [iter_list fold_left].
+  inversion ND as [|? ? He ND']; subst.
+  destruct (Q e (or_introl eq_refl)) as (m & Gm & Mn & Ha).
+  rewrite exec_list_cons, exec_remove. hgs. rewrite Gm, Mn.
+  assert (E1 : with_edge s (set e (sremove n m) (h_edge s)) = edge_rem e n s).
+  { unfold edge_rem, has, getl. rewrite Gm. reflexivity. }
+  rewrite E1. set (s' := edge_rem e n s).
+  assert (Ge' : get e (h_edge s') = Some (sremove n m)) by (unfold s'; rewrite <- E1; hgs; apply get_set_same).
+  assert (Ha' : h_eattr s' = h_eattr s) by (unfold s'; rewrite <- E1; reflexivity).
+  assert (Hh' : has e (h_edge s') = true) by (unfold has; rewrite Ge'; reflexivity).
+  assert (Gl' : getl e (h_edge s') = sremove n m) by (unfold getl; rewrite Ge'; reflexivity).
+  rewrite exec_list_cons, exec_if. cbn [beval]. hgs. rewrite Ge'. cbv zeta. rewrite Gl', Hh'.
+  assert (Rest : forall t, (h_eattr t = del e (h_eattr s) \/ h_eattr t = h_eattr s) ->
+                           (forall e', e' <> e -> get e' (h_edge t) = get e' (h_edge s)) -> WeakQ n t es).
+  { intros t Hat Het e' He'. assert (Ne : e' <> e) by (intro; subst; contradiction).
+    destruct (Q e' (or_intror He')) as (m' & Gm' & Mn' & Ha2). exists m'. split; [rewrite Het by exact Ne; exact Gm'|].
+    split; [exact Mn'|]. destruct Hat as [Hat|Hat]; rewrite Hat; [unfold has; rewrite get_del_other by exact Ne; exact Ha2|exact Ha2]. }
+  assert (Oth : forall e', e' <> e -> get e' (h_edge s') = get e' (h_edge s)).
+  { intros e' Ne. unfold s'. rewrite <- E1. hgs. apply get_set_other. exact Ne. }
+  destruct (sremove n m) as [|y r] eqn:Es; cbn [andb].
+  - destruct re; cbn [nth andb].
+    + rewrite exec_list_cons, exec_del. hgs. rewrite Hh'. rewrite exec_list_cons, exec_delattr. hgs. rewrite Ha', Ha. rewrite !exec_list_nil.
+      assert (Ed : with_eattr (with_edge s' (del e (h_edge s'))) (del e (h_eattr s)) = drop_edge e s') by (unfold drop_edge; rewrite Ha'; reflexivity).
+      rewrite Ed. apply IH; [exact ND'|]. apply Rest.
+      * left. unfold drop_edge. hgs. rewrite Ha'. reflexivity.
+      * intros e' Ne. unfold drop_edge. hgs. rewrite get_del_other by exact Ne. apply Oth. exact Ne.
+    + rewrite !exec_list_nil. apply IH; [exact ND'|]. apply Rest; [right; exact Ha'|exact Oth].
+  - rewrite !exec_list_nil. apply IH; [exact ND'|]. apply Rest; [right; exact Ha'|exact Oth].
+Qed.
+
+Theorem remove_node_is_source n strong re s : Inv s ->
+  run_method src_remove_node [n] [strong; re] s = remove_node n strong re s.
+Proof.
+  intros (W & (Kna & Kea & _ & _) & (Vn & Vm) & _). unfold run_method, run_method_a, src_remove_node, remove_node.
+  rewrite exec_list_cons, exec_bind. hgs. destruct (get n (h_node s)) as [es|] eqn:Gn; [|reflexivity].
+  assert (Hes : mships s n = es) by (unfold mships, getl; rewrite Gn; reflexivity).
+  assert (Hn : has n (h_node s) = true) by (unfold has; rewrite Gn; reflexivity).
+  rewrite exec_list_cons, exec_del. hgs. rewrite Hn. rewrite exec_list_cons, exec_delattr. hgs.
+  assert (Hna : has n (h_nattr s) = true) by (apply has_In; rewrite Kna; apply has_In; exact Hn). rewrite Hna.
+  set (s1 := with_nattr (with_node s (del n (h_node s))) (del n (h_nattr s))).
+  assert (E1 : s1 = drop_node n s) by reflexivity.
+  assert (NDes : NoDup es) by (rewrite <- Hes; apply Vn).
+  assert (Edge : forall e, In e es -> exists m, get e (h_edge s) = Some m /\ In n m).
+  { intros e He. rewrite <- Hes in He. apply W in He. unfold mems, getl in He.
+    destruct (get e (h_edge s)) as [m|]; [|destruct He]. exists m. split; [reflexivity|exact He]. }
+  assert (Eattr : forall e m, get e (h_edge s) = Some m -> has e (h_eattr s) = true).
+  { intros e m G. apply has_In. rewrite Kea. apply (get_Some_In e (h_edge s) m G). }
+  rewrite exec_list_cons, exec_if. cbn [beval]. hgs. destruct strong; cbn [nth].
+  - rewrite exec_list_cons, exec_forlocal. hgs.
+    rewrite (strong_loop_ok n [true; re] [es] s es s1 NDes).
+    + rewrite !exec_list_nil. rewrite E1. reflexivity.
+    + intros e He. destruct (Edge e He) as (m & Gm & Hnm). exists m. split; [unfold s1; hgs; exact Gm|]. split; [exact Gm|].
+      split; [pose proof (Vm e) as V; unfold mems, getl in V; rewrite Gm in V; exact V|].
+      split; [unfold s1; hgs; apply (Eattr e m Gm)|].
+      intros x Hx Nx. assert (Hi : In e (mships s x)) by (apply W; unfold mems, getl; rewrite Gm; exact Hx).
+      unfold mships, getl in Hi. destruct (get x (h_node s)) as [l|] eqn:Gx; [|destruct Hi].
+      exists l. split; [unfold s1; hgs; rewrite get_del_other by exact Nx; exact Gx|apply mem_In; exact Hi].
+  - rewrite exec_list_cons, exec_forlocal. hgs.
+    rewrite (weak_loop_ok n false re [es] es s1 NDes).
+    + rewrite !exec_list_nil. rewrite E1. reflexivity.
+    + intros e He. destruct (Edge e He) as (m & Gm & Hnm). exists m. split; [unfold s1; hgs; exact Gm|].
+      split; [apply mem_In; exact Hnm|unfold s1; hgs; apply (Eattr e m Gm)].
 Qed.
